@@ -210,8 +210,15 @@ def hop_case(draw):
     # n distinct ARFCNs: arithmetic progression modulo 1024 with an odd step (cheap to draw, injective)
     base, step = draw(st.integers(0, 1023)), draw(st.sampled_from((1, 3, 5, 7, 13, 101, 511, 1023)))
     arfcns = [(base + i * step) % 1024 for i in range(n)]
-    if draw(st.booleans()):
+    order = draw(st.sampled_from(["asis", "sorted", "reversed", "dups"]))
+    if order == "sorted":
         arfcns.sort()
+    elif order == "reversed":
+        arfcns.sort(reverse=True)
+    elif order == "dups" and n > 1:
+        # the same channel more than once in the allocation (the result is still MA[MAI])
+        m_ = draw(st.integers(1, n - 1))
+        arfcns = [arfcns[i % m_] for i in range(n)]
     return {"hsn": draw(st.integers(0, 63)), "maio": draw(st.one_of(st.integers(0, 63), st.integers(0, n - 1))),
             "arfcns": arfcns, "fn": draw(S.fn()), "tuples": draw(st.booleans())}
 
@@ -233,7 +240,7 @@ def hyp_oracle(case):
     fw = int(out[0].split()[1])
     if fw != ar[e]:
         raise Violation("c07:fw-differs-from-spec:%s" % kind, "firmware ARFCN %d, spec MAI %d -> %d" % (fw, e, ar[e]))
-    py_arfcn = ar[ma.index(got)]
+    py_arfcn = got[0] // 1000 if case["tuples"] else got
     if py_arfcn != fw:
         raise Violation("c07:py-fw-disagree", "python %r firmware %r" % (py_arfcn, fw))
     dev = False
